@@ -59,7 +59,7 @@ def table_form(chk, P):
     I = F.make_interp(P)
     tf = P.cls("atsim.potentials.tableforms", "Cubic_Spline_Table_Form")
     inst = I.instantiate(tf, [W.param("x_data"), W.param("y_data")], {}, None)
-    site = tf.lookup("__init__").site()
+    site = tf.site_of("__init__")
     it = I.getattr(inst, "interpolant")     # documented property: the scipy object used internally
     ok = isinstance(it, Opaque) and it.path[0] == "extcall" and it.path[1].endswith("InterpolatedUnivariateSpline")
     chk.ob("C18.O1", "the interpolant is scipy's InterpolatedUnivariateSpline", ok, site=site, found=it, expect="InterpolatedUnivariateSpline(...)",
@@ -76,7 +76,7 @@ def table_form(chk, P):
     x = Num(ep.sym("x"))
     v = I.call(inst, [x], {})
     chk.ob("C18.O1", "__call__(x) evaluates the interpolant at x", isinstance(it, Opaque) and isinstance(v, Num)
-           and ep.equal(v.rf, ep.app(it.path, [ep.sym("x")]))[0], site=tf.lookup("__call__").site(), found=v, expect="interpolant(x)",
+           and ep.equal(v.rf, ep.app(it.path, [ep.sym("x")]))[0], site=tf.site_of("__call__"), found=v, expect="interpolant(x)",
            key="C18.O1|call")
 
 
@@ -144,14 +144,14 @@ def xy_parsing(chk, P):
     obj = I.getattr(fac, "potential_function")
     it = I.getattr(obj, "interpolant") if isinstance(obj, InstV) else None
     ok = isinstance(it, Opaque) and it.path[2] == (W.param("XS").key(), W.param("YS").key())
-    chk.ob("C18.O2", "Table_Form_Factory passes (tuple.x, tuple.y) as (x_data, y_data)", ok, site=tfb.lookup("__init__").site(), found=it,
+    chk.ob("C18.O2", "Table_Form_Factory passes (tuple.x, tuple.y) as (x_data, y_data)", ok, site=tfb.site_of("__init__"), found=it,
            expect="(XS, YS)", key="C18.O2|factory")
 
 
 def get_value(chk, P):
     mod = "atsim.potentials._tablereaders"
     cls = P.cls(mod, "TableReaderBase")
-    site = cls.lookup("getValue").site()
+    site = cls.site_of("getValue")
     total = 0
     reader = P.cls("atsim.potentials", "TableReader")
     for n in (range(1, 8) if chk.tier == "thorough" else (1, 2, 3, 4)):
@@ -208,7 +208,7 @@ def dat_reader(chk, P):
     I = F.make_interp(P)
     tr = I.instantiate(P.cls("atsim.potentials", "TableReader"), [PyObjV(FileModel("0 1\n2 5"))], {}, None)
     v = I.num(I.call(tr, [Num(ep.const(1))], {}))
-    chk.ob("C18.O4", "TableReader(file)(x) is DatReader.getValue(x)", v.as_const() == 3, site=P.cls("atsim.potentials", "TableReader").lookup("__call__").site(),
+    chk.ob("C18.O4", "TableReader(file)(x) is DatReader.getValue(x)", v.as_const() == 3, site=P.cls("atsim.potentials", "TableReader").site_of("__call__"),
            found=v, expect=3, key="C18.O4|TableReader")
 
 
